@@ -1002,7 +1002,246 @@ def check_class_state(repo, chk, pid):
     chk.ok(oid, 'R19', 'outrank/', 'mutable class attributes used as per-instance state', f'{len(seen)} class(es) on this property\'s path inspected', inspected=max(1, len(seen)))
 
 
+# ---------------------------------------------------------------------------
+# H8 - a memo must be keyed by everything its values depend on
+# ---------------------------------------------------------------------------
+
+def _bases(fn, expr, stop_names=frozenset(), limit=400):
+    """Names `expr` is computed from, followed backwards through every binding of a local in the function (flow-insensitive): returns the set of all
+    names met on the way (locals, loop targets, parameters)."""
+    binds = {}
+    for n in ast.walk(fn):
+        if isinstance(n, (ast.Assign, ast.AnnAssign, ast.AugAssign)) and getattr(n, 'value', None) is not None:
+            tg = n.targets if isinstance(n, ast.Assign) else [n.target]
+            for t in tg:
+                for x in ast.walk(t):
+                    if isinstance(x, ast.Name) and isinstance(x.ctx, ast.Store):
+                        binds.setdefault(x.id, []).append(n.value)
+            # X[k] = v / X.attr = v : the container depends on what is stored into it
+            for t in tg:
+                if isinstance(t, (ast.Subscript, ast.Attribute)):
+                    base = t
+                    while isinstance(base, (ast.Subscript, ast.Attribute)):
+                        base = base.value
+                    if isinstance(base, ast.Name):
+                        binds.setdefault(base.id, []).append(n.value)
+                        if isinstance(t, ast.Subscript):
+                            binds[base.id].append(t.slice)
+        elif isinstance(n, ast.Call) and isinstance(n.func, ast.Attribute) and n.func.attr in MUTATORS and isinstance(n.func.value, ast.Name):
+            for a in list(n.args) + [k.value for k in n.keywords]:
+                binds.setdefault(n.func.value.id, []).append(a)
+        elif isinstance(n, (ast.For, ast.comprehension)):
+            for x in ast.walk(n.target):
+                if isinstance(x, ast.Name):
+                    binds.setdefault(x.id, []).append(n.iter)
+        elif isinstance(n, ast.withitem) and n.optional_vars is not None:
+            for x in ast.walk(n.optional_vars):
+                if isinstance(x, ast.Name):
+                    binds.setdefault(x.id, []).append(n.context_expr)
+    seen, todo = set(), [x.id for x in ast.walk(expr) if isinstance(x, ast.Name)]
+    while todo and len(seen) < limit:
+        nm = todo.pop()
+        if nm in seen or nm in stop_names:
+            continue
+        seen.add(nm)
+        for v in binds.get(nm, ()):
+            todo += [x.id for x in ast.walk(v) if isinstance(x, ast.Name)]
+    return seen
+
+
+def coarse_memos(fn):
+    """Memo tables filled in `fn` whose key leaves out something the cached value is computed from.
+       pattern:  D[K] = V  /  D.setdefault(K, V)   guarded by a look-up of K in D  (K not in D, D.get(K) is None, try: D[K] except KeyError), with D read by key.
+       (a) D is created in fn outside a loop L that encloses the fill: the value depends on the loop variable of L, the key does not - the entry of an earlier
+           iteration is handed out for a later one;
+       (b) D lives outside fn (a closure cell, a module-level name, an attribute of self): the value depends on a parameter of fn, the key does not.
+    Returns [(table text, fill node, name left out, 'loop' | 'parameter')]."""
+    par = {}
+    for p in ast.walk(fn):
+        for c in ast.iter_child_nodes(p):
+            par[c] = p
+    own = [n for n in ast.walk(fn)]
+    inner = {id(y) for x in own if isinstance(x, (ast.FunctionDef, ast.AsyncFunctionDef, ast.Lambda)) and x is not fn for y in ast.walk(x) if y is not x}
+    params = [a.arg for a in fn.args.posonlyargs + fn.args.args + fn.args.kwonlyargs if a.arg not in ('self', 'cls')]
+    out = []
+    fills = []
+    for n in own:
+        if id(n) in inner:
+            continue
+        if isinstance(n, ast.Assign) and len(n.targets) == 1 and isinstance(n.targets[0], ast.Subscript) and not isinstance(n.targets[0].slice, ast.Slice):
+            fills.append((n, n.targets[0].value, n.targets[0].slice, n.value))
+        elif isinstance(n, ast.Call) and isinstance(n.func, ast.Attribute) and n.func.attr == 'setdefault' and len(n.args) == 2:
+            fills.append((n, n.func.value, n.args[0], n.args[1]))
+    for node, table, key, value in fills:
+        ttxt = ast.unparse(table)
+        if not isinstance(table, (ast.Name, ast.Attribute)):
+            continue
+        # the memo pattern: the fill is guarded by a look-up of the same table
+        guarded = False
+        cur, child = par.get(node), node
+        while cur is not None and cur is not fn:
+            if isinstance(cur, ast.If) and ttxt in ast.unparse(cur.test):
+                guarded = True
+            if isinstance(cur, ast.If):
+                # `hit = D.get(K)` ... `if hit is None:`
+                for x in ast.walk(cur.test):
+                    if isinstance(x, ast.Name):
+                        for a in own:
+                            if isinstance(a, ast.Assign) and len(a.targets) == 1 and isinstance(a.targets[0], ast.Name) and a.targets[0].id == x.id and isinstance(a.value, ast.Call) and \
+                                    isinstance(a.value.func, ast.Attribute) and a.value.func.attr == 'get' and ast.unparse(a.value.func.value) == ttxt:
+                                guarded = True
+            if isinstance(cur, ast.ExceptHandler) and cur.type is not None and 'KeyError' in ast.unparse(cur.type):
+                guarded = True
+            child, cur = cur, par.get(cur)
+        if isinstance(node, ast.Call):
+            guarded = True        # setdefault is its own look-up
+        if not guarded:
+            continue
+        reads = [x for x in own if (isinstance(x, ast.Subscript) and isinstance(x.ctx, ast.Load) and ast.unparse(x.value) == ttxt) or
+                 (isinstance(x, ast.Call) and isinstance(x.func, ast.Attribute) and x.func.attr in ('get', 'setdefault') and ast.unparse(x.func.value) == ttxt)]
+        if not reads:
+            continue
+        kb = _bases(fn, key)
+        vb = _bases(fn, value)
+        if isinstance(table, ast.Name):
+            creations = [a for a in own if id(a) not in inner and isinstance(a, (ast.Assign, ast.AnnAssign)) and a.value is not None and
+                         any(isinstance(t, ast.Name) and t.id == table.id for t in (a.targets if isinstance(a, ast.Assign) else [a.target]))]
+        else:
+            creations = []
+        local = bool(creations)
+        if local:
+            if len(creations) != 1:
+                continue
+            c0 = creations[0]
+            if not (isinstance(c0.value, ast.Dict) and not c0.value.keys) and not (isinstance(c0.value, ast.Call) and ast.unparse(c0.value.func) in ('dict', 'defaultdict', 'collections.defaultdict', 'OrderedDict') and not c0.value.args):
+                continue
+            # loops that enclose the fill but not the creation
+            encl = []
+            cur = par.get(node)
+            while cur is not None and cur is not fn:
+                if isinstance(cur, (ast.For, ast.While)):
+                    encl.append(cur)
+                cur = par.get(cur)
+            c_encl = set()
+            cur = par.get(c0)
+            while cur is not None and cur is not fn:
+                c_encl.add(id(cur))
+                cur = par.get(cur)
+            for lp in encl:
+                if id(lp) in c_encl or not isinstance(lp, ast.For):
+                    continue
+                tnames = {x.id for x in ast.walk(lp.target) if isinstance(x, ast.Name)}
+                missing = sorted((vb & tnames) - kb)
+                # what the key is computed from may itself determine the loop variable only through the loop: the key must mention it (or something bound from it)
+                if missing:
+                    out.append((ttxt, node, missing[0], 'loop', lp))
+                    break
+        elif table.id not in params if isinstance(table, ast.Name) else (isinstance(table.value, ast.Name) and table.value.id in ('self', 'cls')):
+            missing = sorted((vb & set(params)) - kb)
+            # a state holder created on first use (a counter / sketch / empty container per key, configured by a parameter) is not a memo of a computed value
+            def _holder(v):
+                return (isinstance(v, ast.Call) and (ast.unparse(v.func).split('.')[-1][:1].isupper() or ast.unparse(v.func) in MUTABLE_CTORS)) or \
+                       (isinstance(v, (ast.Dict, ast.List, ast.Set)) and not ast.dump(v).count('Name('))
+            vals = [value]
+            if isinstance(value, ast.Name):
+                vals = [a.value for a in own if isinstance(a, ast.Assign) and any(isinstance(t, ast.Name) and t.id == value.id for t in a.targets)] or [value]
+            holder = any(_holder(v) for v in vals)
+            if missing and (kb & set(params)) and not holder:
+                out.append((ttxt, node, missing[0], 'parameter', None))
+    return out
+
+
+def check_memos(repo, chk, pid):
+    roots = ROOTS.get(pid)
+    if not roots:
+        return
+    ix = index(repo)
+    oid = f'{pid}.H8'
+    funcs = ix.closure(roots, False)          # the functions the property is anchored in and their helpers, not everything a batch runs through
+    n = 0
+    for k in sorted(funcs):
+        fn = ix.funcs[k]
+        cands = [fn] + [x for x in ast.walk(fn) if isinstance(x, (ast.FunctionDef, ast.AsyncFunctionDef)) and x is not fn]
+        for g in cands:
+            n += 1
+            for ttxt, node, name, kind, lp in coarse_memos(g)[:1]:
+                if kind == 'loop':
+                    why = (f'the memo `{ttxt}` is created outside the loop `for {norm(lp.target)} in {norm(lp.iter)[:40]}` and filled inside it; the cached value depends on the loop variable `{name}`, '
+                           f'the key does not: from the second iteration on the entries of an earlier `{name}` are handed out (the memo must be created inside that loop, or `{name}` must be part of the key)')
+                else:
+                    why = (f'the cached value depends on the parameter `{name}`, which is not part of the key of `{ttxt}`: a later call with another `{name}` and the same key receives the entry computed for the earlier one')
+                chk.bad(oid, 'R19', site(repo, k[0], k[1], node), norm(node)[:120], why)
+    chk.ok(oid, 'R19', 'outrank/', 'memo tables', f'{n} function(s) on this property\'s path inspected: every memo is keyed by what its values are computed from', inspected=max(1, n))
+
+
+# ---------------------------------------------------------------------------
+# H9 - what an lru_cache'd function returns is the cached object itself
+# ---------------------------------------------------------------------------
+
+def _is_cached(fn):
+    for d in fn.decorator_list:
+        t = ast.unparse(d.func if isinstance(d, ast.Call) else d)
+        if t.split('.')[-1] in ('lru_cache', 'cache', 'cached', 'memoize'):
+            return True
+    return False
+
+
+def mutated_cache_results(ix, repo, key):
+    """x = f(..) with f decorated by functools.lru_cache / cache (no copy in between), then x is changed in place"""
+    fn = ix.funcs[key]
+    m = repo.modules[key[0]]
+    out = []
+    for n in ast.walk(fn):
+        if not (isinstance(n, ast.Assign) and len(n.targets) == 1 and isinstance(n.targets[0], ast.Name) and isinstance(n.value, ast.Call)):
+            continue
+        f = n.value.func
+        callee = None
+        if isinstance(f, ast.Name):
+            r = ix._resolve_name(m, key[0], f.id)
+            callee = next(iter(r)) if r and len(r) == 1 else None
+        elif isinstance(f, ast.Attribute) and isinstance(f.value, ast.Name) and f.value.id in ('self', 'cls') and ix.cls_of.get(key) is not None:
+            callee = (key[0], f'{ix.cls_of[key]}.{f.attr}')
+        if callee not in ix.funcs or not _is_cached(ix.funcs[callee]):
+            continue
+        x = n.targets[0].id
+        rebinds = [a for a in ast.walk(fn) if isinstance(a, ast.Assign) and a is not n and any(isinstance(t, ast.Name) and t.id == x for t in a.targets)]
+        if rebinds:
+            continue
+        for u in ast.walk(fn):
+            hit = None
+            if isinstance(u, ast.Call) and isinstance(u.func, ast.Attribute) and u.func.attr in MUTATORS and isinstance(u.func.value, ast.Name) and u.func.value.id == x:
+                hit = u
+            elif isinstance(u, ast.AugAssign) and isinstance(u.target, ast.Name) and u.target.id == x and not getattr(u, 'from_plain', False):
+                hit = u
+            elif isinstance(u, (ast.Assign, ast.AugAssign, ast.Delete)):
+                tg = u.targets if isinstance(u, (ast.Assign, ast.Delete)) else [u.target]
+                if any(isinstance(t, ast.Subscript) and isinstance(t.value, ast.Name) and t.value.id == x for t in tg):
+                    hit = u
+            if hit is not None and getattr(hit, 'lineno', 0) >= n.lineno:
+                out.append((n, hit, callee[1]))
+                break
+    return out
+
+
+def check_cache_results(repo, chk, pid):
+    roots = ROOTS.get(pid)
+    if not roots:
+        return
+    ix = index(repo)
+    oid = f'{pid}.H9'
+    funcs = ix.closure(roots, False)
+    n_cached = sum(1 for k in ix.funcs if _is_cached(ix.funcs[k]))
+    for key in sorted(funcs):
+        for b, hit, callee in mutated_cache_results(ix, repo, key)[:1]:
+            chk.bad(oid, 'R11', site(repo, key[0], key[1], hit), f'{norm(b)[:70]} ... {norm(hit)[:60]}',
+                    f'`{b.targets[0].id}` is the object {callee} keeps in its cache (lru_cache hands out the cached object itself, not a copy) and `{norm(hit)[:50]}` changes it in place: '
+                    'the next call with the same arguments - the next batch - receives the modified object')
+    chk.ok(oid, 'R11', 'outrank/', 'results of cached functions', f'{len(funcs)} function(s) on this property\'s path, {n_cached} cached function(s) in the package: no cached result is changed in place', inspected=max(1, len(funcs)))
+
+
 def run(repo, chk, pid):
+    check_cache_results(repo, chk, pid)
+    check_memos(repo, chk, pid)
     check_class_state(repo, chk, pid)
     check_inplace(repo, chk, pid)
     check_single_use(repo, chk, pid)
